@@ -430,16 +430,31 @@ func runOnce(sc Scenario) (Result, bool) {
 	return res, f.slow.Load()
 }
 
-func runScenario(sc Scenario) Result {
+var soloMu sync.Mutex
+
+// runScenario re-runs a scenario whose serving peer came near the real handler's 50 ms budget (its answer may then be
+// shorter than the model's, for timing reasons only): up to 4 times among the other concurrent scenarios, then up to 4
+// times alone.  ok = false: every attempt was slow (an overloaded machine); such a case is not reported at all.
+func runScenario(sc Scenario) (Result, bool) {
 	var res Result
 	for try := 0; try < 4; try++ {
 		var slow bool
 		res, slow = runOnce(sc)
 		if !slow {
-			break
+			return res, true
 		}
 	}
-	return res
+	soloMu.Lock()
+	defer soloMu.Unlock()
+	for try := 0; try < 4; try++ {
+		time.Sleep(50 * time.Millisecond)
+		var slow bool
+		res, slow = runOnce(sc)
+		if !slow {
+			return res, true
+		}
+	}
+	return res, false
 }
 
 // ---- Coq printing ------------------------------------------------------------------------------
@@ -554,7 +569,10 @@ func signature(sc Scenario, res Result) string {
 }
 
 func run(sc Scenario) emit.Case {
-	res := runScenario(sc)
+	res, ok := runScenario(sc)
+	if !ok {
+		return emit.Case{} // skipped (see runScenario)
+	}
 	nontrivial := len(res.Saved) > 0 && len(res.Reqs) >= 2
 	return emit.Case{Coq: coqCase(sc, res), JSON: mirror{sc, res}, Nontrivial: nontrivial, Kind: sc.Kind, Sig: signature(sc, res)}
 }
@@ -775,6 +793,9 @@ func TestDriver(t *testing.T) {
 	}
 	wg.Wait()
 	for _, c := range out {
+		if c.Coq == "" {
+			continue
+		}
 		_ = w.Put(c)
 	}
 }
